@@ -1,8 +1,8 @@
 package main
 
 import (
-	"go/constant"
 	"fmt"
+	"go/constant"
 	"go/token"
 	"go/types"
 	"sort"
@@ -1057,7 +1057,7 @@ func (c *Ctx) ruleRemainingLength(rr *RuleRep) {
 		for _, ret := range returnsOf(pk) {
 			its := cc.decompose(ret.Results[0])
 			// byte(packetType), raw(remainingLength(n)), loop{raw(contents[i])}
-			if len(its) == 3 && its[0].Kind == "byte" && its[0].Val == ssa.Value(pk.Params[0]) && its[1].Kind == "raw" && its[1].Val == ssa.Value(rlCall) && its[2].Kind == "loop" && len(its[2].Sub) == 1 {
+			if len(its) == 3 && its[0].Kind == "byte" && c.headerOperand(its[0].Val) == ssa.Value(pk.Params[0]) && its[1].Kind == "raw" && its[1].Val == ssa.Value(rlCall) && its[2].Kind == "loop" && len(its[2].Sub) == 1 {
 				if ld, ok := its[2].Sub[0].Val.(*ssa.UnOp); ok {
 					if ia, ok := ld.X.(*ssa.IndexAddr); ok && ia.X == ssa.Value(pk.Params[1]) && ascendingFromZero(ia.Index) {
 						okBody = true
@@ -1292,7 +1292,7 @@ func (c *Ctx) ruleInboundFields(rr *RuleRep) {
 			return
 		}
 		if _, isT := isFieldAddr(st.Addr, "Message", "Topic"); isT {
-			if ex, ok := st.Val.(*ssa.Extract); ok && ex.Tuple == ssa.Value(usCall) && ex.Index == 1 {
+			if ex, ok := st.Val.(*ssa.Extract); ok && ex.Tuple == ssa.Value(usCall) && ex.Index == resultIndexOf(us, "string") {
 				okTopic = true
 			}
 		}
@@ -1302,11 +1302,11 @@ func (c *Ctx) ruleInboundFields(rr *RuleRep) {
 			if sl, ok := st.Val.(*ssa.Slice); ok && sl.X == ssa.Value(contents) && sl.High == nil && sl.Low != nil {
 				isN := func(v ssa.Value) bool {
 					ex, ok := v.(*ssa.Extract)
-					return ok && ex.Tuple == ssa.Value(usCall) && ex.Index == 0
+					return ok && ex.Tuple == ssa.Value(usCall) && ex.Index == resultIndexOf(us, "int")
 				}
 				isNID := func(v ssa.Value) bool {
 					ex, ok := v.(*ssa.Extract)
-					if !ok || ex.Index != 0 {
+					if !ok || ex.Index != resultIndexOf(c.Func("unpackUint16"), "int") {
 						return false
 					}
 					call, ok := ex.Tuple.(*ssa.Call)
@@ -1376,7 +1376,12 @@ func (c *Ctx) ruleUnpackStringConsumes(rr *RuleRep) {
 		if !isNilConst(c.Resolve(c.errResult(ret))) {
 			continue
 		}
-		got := b.norm(ret.Results[0])
+		ci := resultIndexOf(us, "int")
+		if ci < 0 || ci >= len(ret.Results) {
+			rr.Undecided("unpackString/consumed", ret.Pos(), "unpackString has no count result")
+			continue
+		}
+		got := b.norm(ret.Results[ci])
 		d := got.add(*hi, -1)
 		if len(d.K) == 0 && d.C == 0 {
 			rr.OK("unpackString/consumed", ret.Pos(), "returned count equals the end offset of the decoded field (%s)", got.String())
@@ -1765,4 +1770,40 @@ func (c *Ctx) writesFieldsOf(f *ssa.Function, typ string) bool {
 		found = true
 	})
 	return found
+}
+
+// resultIndexOf: the index of f's (first) result of the given basic type name; -1 if none. The decoding helpers return the
+// number of bytes consumed (int) next to the decoded value, in either order.
+func resultIndexOf(f *ssa.Function, typ string) int {
+	if f == nil {
+		return -1
+	}
+	res := f.Signature.Results()
+	for i := 0; i < res.Len(); i++ {
+		if types.TypeString(res.At(i).Type(), nil) == typ {
+			return i
+		}
+	}
+	return -1
+}
+
+// headerOperand: the value a header byte is taken from: conversions and the packetType.b() accessor are looked through.
+func (c *Ctx) headerOperand(v ssa.Value) ssa.Value {
+	for i := 0; i < 6; i++ {
+		switch x := v.(type) {
+		case *ssa.Convert:
+			v = x.X
+			continue
+		case *ssa.ChangeType:
+			v = x.X
+			continue
+		case *ssa.Call:
+			if g := c.StaticCalleeOf(&x.Call); g != nil && g.Name() == "b" && len(x.Call.Args) == 1 && g.Signature.Recv() != nil && typeName(g.Signature.Recv().Type()) == "packetType" {
+				v = x.Call.Args[0]
+				continue
+			}
+		}
+		break
+	}
+	return v
 }
